@@ -84,7 +84,7 @@ def method_for_year(schedule, year):
 class Hist:
     """symbolic (or concrete) history: per-slot variables plus the rp2 transaction objects built from them"""
 
-    def __init__(self, S, slots, years, prefix="", tz=False, ordered=True, shared_off=None, price_k=PRICE_K, price_max=PRICE_MAX, amount_max=AMOUNT_MAX):
+    def __init__(self, S, slots, years, prefix="", tz=False, ordered=True, shared_off=None, shared_sym=None, price_k=PRICE_K, price_max=PRICE_MAX, amount_max=AMOUNT_MAX):
         self.S = S
         self.slots = slots
         self.years = tuple(years)
@@ -98,6 +98,12 @@ class Hist:
             if tz:
                 # local wall-clock time stays inside the window; the instant is local - offset
                 off = S.int("o" + nm, -720, 840)
+                t = S.int("t" + nm, t_lo - 840 * 60 * 10**6, t_hi + 720 * 60 * 10**6)
+                S.assume_cmp(t + off * (60 * 10**6), ">=", t_lo)
+                S.assume_cmp(t + off * (60 * 10**6), "<=", t_hi)
+            elif shared_off is not None and (shared_sym if shared_sym is not None else not isinstance(shared_off, int)):
+                # one symbolic offset shared by every slot: local dates stay monotone in the instant
+                off = shared_off
                 t = S.int("t" + nm, t_lo - 840 * 60 * 10**6, t_hi + 720 * 60 * 10**6)
                 S.assume_cmp(t + off * (60 * 10**6), ">=", t_lo)
                 S.assume_cmp(t + off * (60 * 10**6), "<=", t_hi)
